@@ -27,6 +27,7 @@ def run(ctx):
             base["DampingTime"] = r.choice([0.0, 1e-3])
         if i % 3 == 1:
             base["InterpolateClamped"] = True        # whatever clamping does, it does it to every bunch as to a single one
+        prog.sprinkle(core.Rng("c08nuisance", ctx.seed, i), base, clamp_ok=True)
         pattern = [[a, a], [a, 0.0, a], [a, a, 0.0, a, a]][i % 3]
         out = dict(i=i, base=base, pattern=pattern, viol=[], compared=0)
         files = {}
